@@ -1,6 +1,7 @@
 package httpserver
 
 import (
+	"hash"
 	"net/http"
 	"net/url"
 
@@ -20,8 +21,12 @@ import (
 // built by the REAL mux.reload from a symbolic Spec.
 // ---------------------------------------------------------------------------
 
-func vRuleMatch(mr *muxRule, r *httpprot.Request) bool { return verifUFBool("hostMatch", vRuleOf[mr], r.Host()) }
-func vMatchPath(mp *MuxPath, r *httpprot.Request) bool { return verifUFBool("pathMatch", vEntryKey(mp), r.Path()) }
+func vRuleMatch(mr *muxRule, r *httpprot.Request) bool {
+	return verifUFBool("hostMatch", vRuleOf[mr], r.Host())
+}
+func vMatchPath(mp *MuxPath, r *httpprot.Request) bool {
+	return verifUFBool("pathMatch", vEntryKey(mp), r.Path())
+}
 func vMatchMethod(mp *MuxPath, r *httpprot.Request) bool {
 	return verifUFBool("methodMatch", vEntryKey(mp), r.Method())
 }
@@ -59,7 +64,7 @@ type vCacheEntry struct {
 }
 
 var vCacheLogs = map[*lru.ARCCache][]vCacheEntry{} // one log per cache object
-var vCacheLog []vCacheEntry                           // (reset marker kept for the harnesses)
+var vCacheLog []vCacheEntry                        // (reset marker kept for the harnesses)
 var vCacheHits int
 
 func vNewARC(size int) (*lru.ARCCache, error) { return &lru.ARCCache{}, nil }
@@ -341,3 +346,19 @@ func verifC05_Enforce() {
 		verifCover("cache-hit")
 	}
 }
+
+// ---- hash functions may collide -------------------------------------------------------------
+// A route cache keyed by a HASH of the request is only as good as the hash is collision-free:
+// the statement asks for transparency "even if a request was crafted to collide". fnv.New32 /
+// New32a are replaced by an uninterpreted function of the bytes written: equal inputs hash
+// equally, different inputs may or may not - the solver looks for the collision.
+type vFnv struct{ data []byte }
+
+func (h *vFnv) Write(p []byte) (int, error) { h.data = append(h.data, p...); return len(p), nil }
+func (h *vFnv) Sum(b []byte) []byte         { return b }
+func (h *vFnv) Reset()                      { h.data = nil }
+func (h *vFnv) Size() int                   { return 4 }
+func (h *vFnv) BlockSize() int              { return 1 }
+func (h *vFnv) Sum32() uint32               { return uint32(verifUFInt("fnv32", 0, 1<<32-1, string(h.data))) }
+
+func vNewFnv32() hash.Hash32 { return &vFnv{} }
